@@ -142,6 +142,30 @@ pub(crate) mod verif_kani_cmp {
         assert!(eq(st(a2), st(b2)) == (math_cmp(&a, &b) == Some(Ord3::Equal)));
         assert!(lt(st(a2), st(b2)) == (math_cmp(&a, &b) == Some(Ord3::Less)));
     }
+    // ---- Kani FUNCTION CONTRACT on the numeric kernel cmp_i64_f64 (modular route) ----
+    // The attribute `#[cfg_attr(kani, kani::ensures(|r| verif_kani_cmp::post_cmp_i64_f64(i, f, r)))]` is inserted mechanically in front of
+    // `fn cmp_i64_f64(` in the scratch copy (vx/kani.py::prepare_crate).  `contract_cmp_i64_f64` proves the real body against it for ALL
+    // i64 x ALL f64 (NaN and the infinities included).  Reusing the contract at the caller (stub_verified) is not possible in Kani 0.68:
+    // the return type Option<Ordering> does not implement kani::Arbitrary; the callers are therefore proved through the body (harnesses above).
+    pub(crate) fn post_cmp_i64_f64(i: i64, f: f64, r: &Option<Ordering>) -> bool {
+        if f.is_nan() { return r.is_none(); }
+        if f == f64::INFINITY { return *r == Some(Ordering::Less); }
+        if f == f64::NEG_INFINITY { return *r == Some(Ordering::Greater); }
+        *r == Some(match math_cmp_i64_f64(i, f) { Ord3::Less => Ordering::Less, Ord3::Equal => Ordering::Equal, Ord3::Greater => Ordering::Greater })
+    }
+    #[cfg(all(kani, verif_kani_contract))]
+    #[kani::proof_for_contract(cmp_i64_f64)]
+    pub(crate) fn contract_cmp_i64_f64() {
+        let (i, f): (i64, f64) = (kani::any(), kani::any());
+        let _ = cmp_i64_f64(i, f);
+    }
+    /// native replay of a counterexample to the contract: the same postcondition asserted on the real function
+    #[cfg(not(kani))]
+    pub(crate) fn contract_cmp_i64_f64() {
+        let (i, f): (i64, f64) = (kani::any(), kani::any());
+        let r = cmp_i64_f64(i, f);
+        assert!(post_cmp_i64_f64(i, f, &r), "cmp_i64_f64({}, {:e}) = {:?} violates its contract", i, f, r);
+    }
     // vacuity canary: this harness MUST FAIL (a false claim about eq)
     #[cfg_attr(kani, kani::proof)]
     #[cfg_attr(kani, kani::unwind(4))]
@@ -165,6 +189,7 @@ pub(crate) mod verif_kani_cmp {
             "nothing" => nothing(),
             "numbers_second_view" => numbers_second_view(),
             "canary_must_fail" => canary_must_fail(),
+            "contract_cmp_i64_f64" => contract_cmp_i64_f64(),
             _ => return false,
         }
         true
